@@ -344,6 +344,11 @@ func VerifyHashed(pubx, puby, e, r, s []byte) (bool, error) {
 		return false, err
 	}
 
+	// [s]G + [t]P must be a finite point: the point at infinity has no x coordinate (GetAffineX reports 0 for it)
+	if result.IsInfinity() {
+		return false, nil
+	}
+
 	R := result.GetAffineX_Unsafe()
 	eInt.SetBytes(e)
 	R.Add(R, &eInt)
